@@ -49,6 +49,14 @@ type Ctx struct {
 	Assumptions []string
 	Explanation string
 	seen        map[string]bool
+	Soft        []string // undecided sub-questions: reported (exit 2) only when no violation is found
+}
+
+// SoftUndecided records that one sub-rule could not be decided (unrecognised
+// shape) without abandoning the other rules. If the run ends with no violation,
+// the verdict is UNDECIDED (exit 2); a violation found elsewhere is still reported.
+func (c *Ctx) SoftUndecided(format string, a ...interface{}) {
+	c.Soft = append(c.Soft, fmt.Sprintf(format, a...))
 }
 
 func NewCtx(prop, tier string, p *Program) *Ctx {
@@ -347,8 +355,17 @@ func (c *Ctx) Finish(extra map[string]interface{}) int {
 		for _, o := range viol {
 			fmt.Printf("%s: %s: %s: %s\n", o.Pos, o.Rule, o.Key, o.Detail)
 		}
+		for _, u := range c.Soft {
+			fmt.Printf("  undecided: %s\n", u)
+		}
 		fmt.Printf("VIOLATION property=%s replay=%s\n", c.Prop, vpath)
 		return 1
+	}
+	if len(c.Soft) > 0 {
+		for _, u := range c.Soft {
+			fmt.Printf("UNDECIDED: property=%s %s\n", c.Prop, u)
+		}
+		return 2
 	}
 	return 0
 }
